@@ -86,11 +86,18 @@ class BaseElementLocator
         return detail::get_mixed_element_address(index, memory_begin, element_addresses_.data());
     }
 
+    // The first element always starts at the beginning of the memory block. Do not look it up in
+    // element_addresses_, which holds no valid entry while the vector is empty.
+    static constexpr std::byte* data_begin(std::byte* memory_begin) noexcept { return memory_begin; }
+
     constexpr auto data_end(const std::byte*) const noexcept { return last_element_; }
 
     void resize(std::size_t new_size, std::byte* memory_begin) noexcept
     {
-        last_element_ = element_address(new_size, memory_begin);
+        if (new_size != element_addresses_.size())
+        {
+            last_element_ = element_address(new_size, memory_begin);
+        }
         element_addresses_.resize_from_capacity(new_size);
     }
 
@@ -211,6 +218,8 @@ class BaseAllFixedSizeElementLocator
     {
         return memory_begin + stride_ * index;
     }
+
+    static constexpr std::byte* data_begin(std::byte* memory_begin) noexcept { return memory_begin; }
 
     constexpr auto data_end(std::byte* memory_begin) const noexcept { return memory_begin + stride_ * element_count_; }
 
